@@ -540,6 +540,11 @@ func judge(sc Scenario, attempts []attempt, results []result, logs [][]simprom.R
 		visited := []int{}
 		seen := map[int]bool{}
 		dialIdx := map[int]int{}
+		type attemptOutcome struct {
+			up      int
+			outcome string
+		}
+		var outs []attemptOutcome
 		for _, a := range at {
 			if !seen[a.Up] {
 				// an upstream is entered only after every earlier one was left: no interleaving back
@@ -558,24 +563,48 @@ func judge(sc Scenario, attempts []attempt, results []result, logs [][]simprom.R
 					outcome = "aborted" // connection made, request never read: the client was already gone
 				}
 			}
+			outs = append(outs, attemptOutcome{a.Up, outcome})
+		}
+		if r.Op.Kind != kRange {
+			// One question, one request at a time. Asking the same upstream again is not something the
+			// property forbids (the first upstream that is reachable answers), but only unavailability
+			// may be followed by another attempt: an answer - a result or an error caused by the query -
+			// is final. What counts for the rest of the judgement is each upstream's last word.
+			var lastWord []attemptOutcome
+			for i, o := range outs {
+				if i+1 < len(outs) && outs[i+1].up == o.up {
+					out.Probes["same_upstream_retry"]++
+					if o.outcome == simprom.ModeOK || o.outcome != "aborted" && o.outcome != "aborted_midbody" && class(o.outcome) == clsMustNot {
+						setViol("asked-again-after-answer", fmt.Sprintf("%s: upstream %d answered %s and was asked again", who, o.up, o.outcome))
+					}
+					continue
+				}
+				lastWord = append(lastWord, o)
+			}
+			outs = lastWord
+		}
+		for _, o := range outs {
+			a := o
+			outcome := o.outcome
+			_ = a
 			switch outcome {
 			case "aborted_midbody":
 				// the client went away while the answer was still arriving: either a failed sibling
 				// slice cancelled it, or its own deadline fired - a timeout of this upstream
-				abortedOn[a.Up]++
-				midbody[a.Up]++
+				abortedOn[o.up]++
+				midbody[o.up]++
 			case "aborted":
-				abortedOn[a.Up]++
+				abortedOn[o.up]++
 				if len(sc.Sched.Pauses) > 0 && r.Op.Kind != kRange {
 					// the scheduler held this answer back until the client's own deadline fired:
 					// for pint that is a timeout of a slow upstream (whether the pause was long
 					// enough is a matter of nanoseconds, so failing over is allowed, not demanded)
-					failed[a.Up] = append(failed[a.Up], "client_timeout")
+					failed[o.up] = append(failed[o.up], "client_timeout")
 				}
 			case simprom.ModeOK:
-				okOn[a.Up]++
+				okOn[o.up]++
 			default:
-				failed[a.Up] = append(failed[a.Up], outcome)
+				failed[o.up] = append(failed[o.up], outcome)
 			}
 		}
 		for u, n := range midbody {
@@ -594,11 +623,43 @@ func judge(sc Scenario, attempts []attempt, results []result, logs [][]simprom.R
 				}
 			}
 		}
-		if r.Op.Kind != kRange {
-			for u, n := range dialIdx {
-				if n > 1 {
-					setViol("repeated-attempt", fmt.Sprintf("%s contacted upstream %d %d times", who, u, n))
+		if r.Op.Kind == kRange && r.Err == nil && len(visited) > 0 {
+			// slices are separate requests; a slice that met unavailability and was then asked again of the
+			// same upstream with success leaves no failure behind (identity known only for requests a server saw)
+			u := visited[len(visited)-1]
+			type span struct{ arrive, end int64 }
+			okByID := map[string][]span{}
+			var bad []simprom.Request
+			for _, lr := range logs[u] {
+				if tag, ok := lr.ConnTag.(connTag); !ok || tag.op != r.ID {
+					continue
 				}
+				if lr.Outcome == simprom.ModeOK {
+					okByID[lr.Identity] = append(okByID[lr.Identity], span{lr.ArriveSeq, lr.EndSeq})
+				} else if !strings.HasPrefix(lr.Outcome, "aborted") {
+					bad = append(bad, lr)
+				}
+			}
+			redeemed := len(failed[u]) > 0 && okOn[u] > 0
+			for _, m := range failed[u] {
+				if c := class(m); c != clsMustFailover && c != clsEither {
+					redeemed = false
+				}
+			}
+			for _, b := range bad {
+				later := false
+				for _, sp := range okByID[b.Identity] {
+					if sp.arrive > b.EndSeq {
+						later = true
+					}
+				}
+				if !later {
+					redeemed = false
+				}
+			}
+			if redeemed {
+				out.Probes["same_upstream_retry"]++
+				delete(failed, u)
 			}
 		}
 		// cache hits are virtual attempts on the upstream whose stored answer was used
